@@ -456,3 +456,14 @@ package secp256k1
 //@   panics !p.isValid
 //@   ensures v.isValid && abs(v) == padd(smul(old(val(u1)), G), smul(old(val(u2)), old(abs(p)))) && result == v
 //@   modifies *v
+//@
+//@ func RecoverPoint
+//@   props C06 C11 C18
+//@   split cond (recoveryID / 2) % 2 == 1
+//@   assert xcand: lift(val(xFe)) == ite(xGtN == 0, lift(val(xScalar)), (lift(val(xScalar)) + N) % P) && xGtN == (recoveryID / 2) % 2 && didReduce == ite(lift(val(xFe)) >= N, 1, 0) && val(sc) == fn(lift(val(xFe)))
+//@   assert xbytes@ptCompressed#3: len(ptCompressed) == 33 && ptCompressed[0] == 2 + recoveryID % 2 && recx(val(xScalar), recoveryID) < P && os2ip(ptCompressed[1:33]) == recx(val(xScalar), recoveryID) && fp(os2ip(ptCompressed[1:33])) == atom(fp(recx(val(xScalar), recoveryID)))
+//@   split case recoveryID < 4 && recx(val(xScalar), recoveryID) < P && issq(pow(atom(fp(recx(val(xScalar), recoveryID))), 3) + 7)
+//@   ensures (recoveryID < 4 && recx(val(xScalar), recoveryID) < P && issq(pow(atom(fp(recx(val(xScalar), recoveryID))), 3) + 7)) <==> (result1 == nil)
+//@   ensures (recoveryID < 4 && recx(val(xScalar), recoveryID) < P && issq(pow(atom(fp(recx(val(xScalar), recoveryID))), 3) + 7)) ==> result0.isValid && val(result0.z) == 1 && val(result0.x) == fp(recx(val(xScalar), recoveryID)) && onaff(val(result0.x), val(result0.y)) && lift(val(result0.y)) % 2 == recoveryID % 2 && abs(result0) == aff(val(result0.x), val(result0.y))
+//@   ensures !(recoveryID < 4 && recx(val(xScalar), recoveryID) < P && issq(pow(atom(fp(recx(val(xScalar), recoveryID))), 3) + 7)) ==> result0 == nil
+//@   fresh result0
